@@ -43,7 +43,7 @@ func init() {
 				{Name: "close-vs-reconnect", Variant: "race", Cases: n * 2, Run: c17closeReconnect, CaseTimeout: 40 * time.Second, Required: []string{"closes_checked"}},
 				{Name: "scenarios", Variant: "race", Cases: n, Run: c17case, CaseTimeout: 60 * time.Second,
 					Required: []string{"fill_storms", "api_mixes", "close_races", "uneven_fills", "closes_checked", "pool_samples", "control_loss_before_close"}},
-				{Name: "debouncer-stress", Variant: "race", Cases: cw, Run: c17debouncerStress, CaseTimeout: 60 * time.Second, Required: []string{"debouncer_refresh_requests", "debouncer_refreshes_run"}},
+				{Name: "debouncer-stress", Variant: "race", Cases: cw, Run: c17debouncerStress, CaseTimeout: 60 * time.Second, Required: []string{"debouncer_refresh_requests", "debouncer_refreshes_run", "debouncer_single_requester_rounds"}},
 				{Name: "refresh-storm", Variant: "race", Cases: cw, Run: c17refreshStorm, CaseTimeout: 60 * time.Second, Required: []string{"refresh_storms", "ring_refreshes_requested"}},
 			}
 		},
@@ -780,40 +780,47 @@ func c17debouncerStress(c *runner.Ctx, i int) {
 		}
 		return nil
 	})
-	ng := 1 + r.Intn(8)
-	per := 2000 + r.Intn(6000)
-	var wg sync.WaitGroup
 	var asked int64
-	stopDeb := make(chan struct{})
-	go func() {
-		for {
-			select {
-			case <-stopDeb:
-				return
-			default:
-			}
+	if i%2 == 0 {
+		// one requester at a time, each request racing a debounce timer that is about to fire: if the flusher's
+		// wake-up for the timer swallows the wake-up token of the request, nothing else will ever wake it again
+		rounds := 5000 + r.Intn(15000)
+		for k := 0; k < rounds; k++ {
 			d.Debounce()
-			time.Sleep(time.Duration(r.Intn(30)) * time.Microsecond)
-		}
-	}()
-	for g := 0; g < ng; g++ {
-		wg.Add(1)
-		go func() {
-			defer wg.Done()
-			for k := 0; k < per; k++ {
-				c.Guard("refreshNow", func() { d.RefreshNow() })
-				atomic.AddInt64(&asked, 1)
+			// land somewhere around the moment the timer fires
+			spin := time.Duration(r.Int63n(int64(2*interval) + 1))
+			for t0 := time.Now(); time.Since(t0) < spin; {
 			}
-		}()
+			c.Guard("refreshNow", func() { d.RefreshNow() })
+			atomic.AddInt64(&asked, 1)
+		}
+		c.Add("debouncer_single_requester_rounds", int64(rounds))
+	} else {
+		// several requesters at once (they can rescue each other; the last ones have nobody left to do so)
+		ng := 2 + r.Intn(7)
+		per := 2000 + r.Intn(6000)
+		var wg sync.WaitGroup
+		for g := 0; g < ng; g++ {
+			wg.Add(1)
+			go func(g int) {
+				defer wg.Done()
+				for k := 0; k < per; k++ {
+					if (g+k)%64 == 0 {
+						d.Debounce()
+					}
+					c.Guard("refreshNow", func() { d.RefreshNow() })
+					atomic.AddInt64(&asked, 1)
+				}
+			}(g)
+		}
+		wg.Wait()
 	}
-	wg.Wait()
-	close(stopDeb)
 	c.Guard("refreshDebouncer.stop", d.Stop)
 	atomic.StoreInt32(&stopped, 1)
 	time.Sleep(2 * time.Millisecond)
 	c.Add("debouncer_refresh_requests", atomic.LoadInt64(&asked))
 	c.Add("debouncer_refreshes_run", atomic.LoadInt64(&runs))
-	c.Eval(runner.H("c17debouncer", i, ng, per), true)
+	c.Eval(runner.H("c17debouncer", i, interval, work), true)
 	if n := atomic.LoadInt64(&afterStop); n > 0 {
 		c.Violation("C17:refresh-after-stop", fmt.Sprintf("%d ring refreshes ran after the debouncer's stop had returned", n), nil)
 	}
